@@ -203,7 +203,7 @@ def classify(inp):
     return "%s:%s" % (inp.get("dtype"), inp.get("fmt"))
 
 
-BUDGET = dict(quick=240, thorough=1000)
+BUDGET = dict(quick=240, thorough=900)
 
 
 def harnesses(tier):
